@@ -5,6 +5,19 @@ rules and the delivery format (nothing from /verif). The sub-agents are then sta
 import json, os, subprocess, sys
 root, wave = sys.argv[1], int(sys.argv[2])
 EMPHASIS = {
+ 11: """   * a defect that needs THREE things to coincide (three properties present together, a flag plus a nesting level plus an object form, three members of a federation), or a HISTORY of
+     four or more operations on the same object / store / registry / module (the fourth call misbehaves because of what the first three left behind) - something a check that
+     tries "one or two departures from the ordinary" would not reach,
+   * how the library calls the STANDARD LIBRARY and its third-party dependencies (simplejson options, `json` hooks, pytz / datetime arithmetic, `re` flags and anchors, `uuid`, `copy`,
+     `collections`, `itertools`, `os.path` / `io`, the stix2patterns parser and its listeners): one option, flag, argument or return-value convention used slightly wrongly for one caller,
+   * CALENDAR and number arithmetic: leap days, month and year ends, negative and fractional UTC offsets that move the date, 59.999999 seconds, year 1 and 9999, integer division versus
+     rounding, float representation of decimal fractions, sign handling, very small and very large magnitudes,
+   * NAMING conventions the code keys on: property names ending in `_ref` / `_refs` / `_hex` / `_bin` / `_hashes`, names that start with `x_` or contain a dot, hyphen or digit, type names that are
+     prefixes or suffixes of other type names, ids whose UUID part has a particular version / variant nibble or letter case, keys that differ only in case,
+   * the library's EXCEPTION classes and handlers: an error class re-parented or replaced so that a caller's `except` no longer matches, an error raised while the message of another error
+     is being built, a `finally` / cleanup step that does not run on one exit path, an error swallowed in a loop so that the loop continues with stale state,
+   * the same logical value arriving in DIFFERENT PYTHON TYPES along one pipeline (str / bytes, list / tuple / set / generator, dict / OrderedDict / library object, int / bool / float / Decimal,
+     datetime / date / STIXdatetime / text) where one stage normalises and a later stage assumes the normalised type.""",
  10: """   * what the DOCSTRINGS and the user guide of the public calls promise (argument forms they list, defaults they state, what they say is returned or raised): break one of those
      promises for a form / default / return shape the tests do not exercise,
    * the interaction of TWO library features that each work alone: markings x versioning, custom properties x extensions, bundles x stores, filters x composite sources,
